@@ -39,7 +39,7 @@ func vhBuildTree(g *vhDigits, depth, maxw int, label string) Stack {
 	w := 1 + g.next(maxw)
 	for i := 0; i < w; i++ {
 		name := label + string(rune('a'+i))
-		kinds := 5
+		kinds := 6
 		if depth <= 1 {
 			kinds = 3
 		}
@@ -53,6 +53,8 @@ func vhBuildTree(g *vhDigits, depth, maxw int, label string) Stack {
 			el = Cond("k"+name, Eq, "v"+name)
 		case 3:
 			el = vhWrapStack(vhBuildTree(g, depth-1, maxw, name), g.next(4))
+		case 5: // a Condition holding a Condition holding a Stack: not descendable
+			el = Cond("o"+name, Eq, Cond("i"+name, Ne, vhBuildTree(g, depth-1, maxw, name)))
 		case 4:
 			inner := vhWrapStack(vhBuildTree(g, depth-1, maxw, name), g.next(4))
 			el = vhWrapCond(Cond("k"+name, Ne, inner), []int{0, 0, 1, 3}[g.next(4)])
